@@ -27,6 +27,8 @@ import (
 // decision must be dropped before the next first-bin is evaluated.
 type bisyncRdbReplayState struct {
 	skippedKey string
+	// skipping tells that skippedKey is set: the empty string is a key too
+	skipping bool
 }
 
 // bisyncRdbGlobalTarget describes one cluster primary that should receive a
@@ -52,22 +54,18 @@ func newBisyncRdbReplayState() *bisyncRdbReplayState {
 // beginKey starts a new logical key and clears the previous key's skip state.
 func (rs *bisyncRdbReplayState) beginKey() {
 	rs.skippedKey = ""
+	rs.skipping = false
 }
 
 // skipKey records that all following bins for the current split key should be ignored.
 func (rs *bisyncRdbReplayState) skipKey(key string) {
-	if key == "" {
-		return
-	}
 	rs.skippedKey = key
+	rs.skipping = true
 }
 
 // shouldSkip reports whether a prior bin already marked the key as ignored.
 func (rs *bisyncRdbReplayState) shouldSkip(key string) bool {
-	if key == "" {
-		return false
-	}
-	return rs.skippedKey == key
+	return rs.skipping && rs.skippedKey == key
 }
 
 // bisyncRdbTargetKey normalizes an RDB key so it matches the key shape used by
@@ -199,6 +197,13 @@ func rewriteBisyncRdbCommandKeys(cmd string, args [][]byte, sourceKey []byte, ta
 	return rewritten
 }
 
+// bisyncRdbEntryHasKey reports whether the entry is the value of a key. Functions and aux
+// fields are not; every other entry is, and its key may be the empty string.
+func bisyncRdbEntryHasKey(e *rdb.BinEntry) bool {
+	t := e.ObjectParser.Type()
+	return t != rdb.RdbObjectFunction && t != rdb.RdbObjectAux
+}
+
 // captureBisyncRdbExpandedCommands expands an RDB object into bisync commands
 // that can be sent as one transactional replay unit.
 func captureBisyncRdbExpandedCommands(e *rdb.BinEntry, sourceKey []byte, targetKey []byte) (cmds []bisyncAofCommand, err error) {
@@ -230,7 +235,7 @@ func captureBisyncRdbExpandedCommands(e *rdb.BinEntry, sourceKey []byte, targetK
 		return nil
 	})
 
-	if e.ExpireAt != 0 && len(targetKey) > 0 {
+	if e.ExpireAt != 0 && bisyncRdbEntryHasKey(e) {
 		// Expanded native commands do not carry TTL state, so append PEXPIRE to
 		// preserve the original expiration semantics.
 		cmds = append(cmds, bisyncAofCommand{
@@ -507,8 +512,8 @@ func (ro *RedisOutput) buildBisyncRdbReplayUnit(conn client.Redis, fullSyncOffse
 	}
 
 	targetKey := ro.bisyncRdbTargetKey(e.Key)
-	globalStandaloneEntry := !ro.cfg.Redis.IsCluster() && (e.ObjectParser.Type() == rdb.RdbObjectFunction || e.ObjectParser.Type() == rdb.RdbObjectAux)
-	hasBusinessKey := len(targetKey) > 0 && !globalStandaloneEntry
+	hasBusinessKey := bisyncRdbEntryHasKey(e)
+	globalStandaloneEntry := !ro.cfg.Redis.IsCluster() && !hasBusinessKey
 	targetKeyStr := util.BytesToString(targetKey)
 	if hasBusinessKey && e.FirstBin() {
 		state.beginKey()
@@ -575,7 +580,7 @@ func (ro *RedisOutput) buildBisyncRdbReplayUnit(conn client.Redis, fullSyncOffse
 	if ro.cfg.Redis.IsCluster() {
 		// Cluster replay still needs a routing slot even though the unit may have
 		// been derived from transformed key bytes.
-		if len(targetKey) == 0 && !globalStandaloneEntry {
+		if !hasBusinessKey && !globalStandaloneEntry {
 			return nil, false, fmt.Errorf("cluster bisync rdb entry has no key")
 		}
 		slot = redispkg.KeyToSlot(util.BytesToString(targetKey))
